@@ -348,6 +348,84 @@ fn anchors(ctx: &mut Ctx) {
     ctx.out.extra("anchors", json!({"crate_test_literals": CRATE_TEST.len(), "cpython_table_rows": rows}));
 }
 
+/// a selector of any form over `i32`, resolved by the crate's own implementations (forwarding only)
+#[derive(Clone, Copy)]
+struct Sel(u8, i32, i32);
+
+impl ViewBounds for Sel {
+    fn view_bounds(self, n: usize) -> Option<(usize, usize)> {
+        match self.0 {
+            0 => self.1.view_bounds(n),
+            1 => (self.1..self.2).view_bounds(n),
+            2 => (self.1..).view_bounds(n),
+            3 => (..self.2).view_bounds(n),
+            4 => (self.1..=self.2).view_bounds(n),
+            5 => (..=self.2).view_bounds(n),
+            _ => (..).view_bounds(n),
+        }
+    }
+}
+
+/// The routes by which a (row, column) selector pair reaches the resolver: `Shape::view`, `Surface::view` of an
+/// owned surface and of a view of it (the selector of the nested view is resolved against the VIEW's axes, rows
+/// against its height and columns against its width), `Image::crop`. Oracle only: the extent of the window must be
+/// the one the Python slice of each axis has; which cells the window holds is C07's business.
+fn routes(ctx: &mut Ctx, rng: &mut Rng, count: u64) {
+    for _ in 0..count {
+        let (h, w) = (1 + rng.below(7) as usize, 1 + rng.below(7) as usize);
+        let mut sel = |rng: &mut Rng| Sel(rng.below(7) as u8, rng.range(-9, 9) as i32, rng.range(-9, 9) as i32);
+        let (r1, c1, r2, c2) = (sel(rng), sel(rng), sel(rng), sel(rng));
+        route_case(ctx, h, w, r1, c1, r2, c2);
+    }
+}
+
+fn route_case(ctx: &mut Ctx, h: usize, w: usize, r1: Sel, c1: Sel, r2: Sel, c2: Sel) {
+    use surf_n_term::surface::{Shape, Surface, SurfaceOwned};
+    use surf_n_term::{Image, RGBA, Size};
+    {
+        let want = |s: Sel, n: usize| py(s.0, s.1 as i128, s.2 as i128, n as i128);
+        let dims = |r: Sel, c: Sel, h: usize, w: usize| match (want(r, h), want(c, w)) {
+            (Some((a, b)), Some((x, y))) => (b - a, y - x),
+            _ => (0, 0),
+        };
+        let e1 = dims(r1, c1, h, w);
+        let e2 = dims(r2, c2, e1.0, e1.1);
+        let got = catch_unwind(AssertUnwindSafe(|| {
+            let size = Size { height: h, width: w };
+            let shape = Shape::from(size).view(r1, c1);
+            let owned: SurfaceOwned<RGBA> = SurfaceOwned::new(size);
+            let v1 = owned.view(r1, c1);
+            let v2 = v1.view(r2, c2);
+            let s2 = shape.view(r2, c2);
+            let img = Image::new(SurfaceOwned::<RGBA>::new(size));
+            let i1 = img.crop(r1, c1);
+            let i2 = i1.crop(r2, c2);
+            vec![
+                ("Shape::view", (shape.height, shape.width), e1),
+                ("Surface::view", (v1.height(), v1.width()), e1),
+                ("Image::crop", (i1.height(), i1.width()), e1),
+                ("Shape::view of a view", (s2.height, s2.width), e2),
+                ("Surface::view of a view", (v2.height(), v2.width()), e2),
+                ("Image::crop of a crop", (i2.height(), i2.width()), e2),
+            ]
+        }));
+        let input = json!({"route": true, "h": h, "w": w, "rows": [r1.0, r1.1, r1.2], "cols": [c1.0, c1.1, c1.2],
+            "rows2": [r2.0, r2.1, r2.2], "cols2": [c2.0, c2.1, c2.2], "selector": "[form, a, b] over i32, forms as in the grid"});
+        ctx.out.case(&format!("route {h} {w} {:?} {:?} {:?} {:?}", (r1.0, r1.1, r1.2), (c1.0, c1.1, c1.2), (r2.0, r2.1, r2.2), (c2.0, c2.1, c2.2)), e2 != (0, 0));
+        ctx.out.hist("route");
+        match got {
+            Err(_) => ctx.out.fail("a view taken through Shape::view / Surface::view / Image::crop panics", input, json!([e1, e2]), json!("panic")),
+            Ok(rows) => {
+                for (what, got, exp) in rows {
+                    if got != exp {
+                        ctx.out.fail(&format!("{what}: extent of the window differs from the Python slices of its axes"), input.clone(), json!(exp), json!(got));
+                    }
+                }
+            }
+        }
+    }
+}
+
 fn main() {
     let cfg = Cfg::from_env();
     let out = cfg.out();
@@ -357,6 +435,15 @@ fn main() {
     if let Some(r) = &cfg.replay {
         // re-run exactly the recorded selector (in the recorded integer type, or in every type that holds it)
         let inp = &r["failure"]["input"];
+        if inp["route"].as_bool() == Some(true) {
+            // a recorded selector pair on a route (Shape::view / Surface::view / Image::crop, and nested)
+            let sel = |k: &str| Sel(inp[k][0].as_u64().unwrap_or(6) as u8, inp[k][1].as_i64().unwrap_or(0) as i32, inp[k][2].as_i64().unwrap_or(0) as i32);
+            let dim = |k: &str| inp[k].as_u64().unwrap_or(1) as usize;
+            route_case(&mut ctx, dim("h"), dim("w"), sel("rows"), sel("cols"), sel("rows2"), sel("cols2"));
+            ctx.out.sample(json!({"replay": inp}));
+            ctx.out.finish("replay of one recorded selector pair on the view / crop routes");
+            return;
+        }
         let num = |k: &str| inp[k].as_str().and_then(|s| s.parse::<i128>().ok()).unwrap_or(0);
         let form = inp["form"].as_u64().unwrap_or(6) as u8;
         let (a, b) = (num("a"), num("b"));
@@ -416,6 +503,7 @@ fn main() {
         run_type!(ctx, isize, true, ns_mid, bounds_mid, rng, 0);
         run_type!(ctx, usize, false, ns_mid, bounds_mid, rng, 0);
     }
+    routes(&mut ctx, &mut rng, if cfg.thorough { 200_000 } else { 20_000 });
     // every (integer type, selector form) pair must have met: zero, the type's MIN and MAX, a bound beyond the axis,
     // and for the signed types a negative bound and one below -n — otherwise the grid itself is defective
     let mut missing = Vec::new();
